@@ -2,8 +2,10 @@
 """round-2 prompt: as round 1 plus a list of changes already made by earlier testers (to avoid repeats)"""
 import json, sys, os, glob, subprocess
 pid = sys.argv[1]
+rnd = int(sys.argv[2]) if len(sys.argv) > 2 else 2
+A, B = 2 * rnd - 1, 2 * rnd
 base = subprocess.run(['/verif/tools/seed_prompt.py', pid], capture_output=True, text=True).stdout
-base = base.replace(f'_seed/{pid}_{{i}}', f'_seed/{pid}_{{i}}').replace('i ∈ {1,2}', 'i ∈ {3,4}')
+base = base.replace(f'_seed/{pid}_{{i}}', f'_seed/{pid}_{{i}}').replace('i ∈ {1,2}', 'i ∈ {%d,%d}' % (A, B))
 prev = []
 for d in sorted(glob.glob(f'/verif/seeded/C*_*')):
     try:
@@ -16,7 +18,7 @@ for d in sorted(glob.glob(f'/verif/seeded/C*_*')):
 avoid = "\n".join(prev)
 print(base)
 print(f"""
-ADDITIONAL RULES FOR THIS ROUND. Earlier testers already produced the changes listed below (for this and for neighbouring properties). Do NOT repeat any of them or a close variant (same function and same idea); look for breakages in OTHER mechanisms, other entry points, other input classes or other operation sequences — e.g. wrappers and glue code rather than the core kernel, rarely-used forms (scalar form, `inds` form, GeoSeries/GeoDataFrame/Dask wrappers), boundary sizes, dtype handling, caching, argument handling, ordering. Name your two changes {pid}_3 and {pid}_4 (directories `_seed/{pid}_3`, `_seed/{pid}_4`).
+ADDITIONAL RULES FOR THIS ROUND. Earlier testers already produced the changes listed below (for this and for neighbouring properties). Do NOT repeat any of them or a close variant (same function and same idea); look for breakages in OTHER mechanisms, other entry points, other input classes or other operation sequences — e.g. wrappers and glue code rather than the core kernel, rarely-used forms (scalar form, `inds` form, GeoSeries/GeoDataFrame/Dask wrappers), boundary sizes, dtype handling, caching, argument handling, ordering. Name your two changes {pid}_{A} and {pid}_{B} (directories `_seed/{pid}_{A}`, `_seed/{pid}_{B}`). In this round prefer changes of the kinds that are hardest to notice: two cooperating sites that each look fine alone, a multi-step sequence of operations (cache warm-up, derive, mutate, re-use), behaviour that differs only at a size/count threshold (page size, >= 11 partitions, >= 2^16 elements, p at a dtype boundary), a fault or interleaving at one particular point, state shared between objects (cached attributes, shared buffers, metas), or argument handling (types, aliasing, mutation of the caller's objects).
 Already done:
 {avoid}
 """)
